@@ -20,7 +20,8 @@ def run(rep):
     d = C.subdir('c01')
     thorough = rep.tier == 'thorough'
     budget = 2_000_000 if thorough else 150_000
-    jobs = P.corpus_jobs(rep.seed, 150 if thorough else 24, 'c01', 'verdict', orders=8 if thorough else 2, max_steps=200)
+    jobs = P.corpus_jobs(rep.seed, 150 if thorough else 24, 'c01', 'verdict', orders=8 if thorough else 2, max_steps=200,
+                         systematic=True)
     outs = P.run_jobs(jobs, 'c01')
     by_arg = {}
     nproofs = 0
